@@ -329,11 +329,14 @@ impl GlobWalker {
                 let depth = entry.depth().saturating_sub(1);
                 for (position, candidate) in path
                     .components()
-                    .skip(depth)
+                    // Component programs are compiled from the nominal components of the glob, so
+                    // non-nominal components like the root must be discarded before any
+                    // components are skipped.
                     .filter_map(|component| match component {
                         Component::Normal(component) => Some(CandidatePath::from(component)),
                         _ => None,
                     })
+                    .skip(depth)
                     .zip_longest(self.program.components.iter().skip(depth))
                     .with_position()
                 {
